@@ -559,9 +559,10 @@ func (f *followingQuery) Select(t iterator) NodeNavigator {
 									Predicate: f.Predicate,
 								}
 							}
-							t.Current().MoveTo(node)
 						}
-						if node := q.Select(t); node != nil {
+						// The nested query starts from node; the caller's context
+						// node is left where it is.
+						if node := q.Select(iteratorFunc(func() NodeNavigator { return node })); node != nil {
 							f.posit = q.posit
 							return node
 						}
@@ -650,9 +651,10 @@ func (p *precedingQuery) Select(t iterator) NodeNavigator {
 								Input:     &contextQuery{},
 								Predicate: p.Predicate,
 							}
-							t.Current().MoveTo(node)
 						}
-						if node := q.Select(t); node != nil {
+						// The nested query starts from node; the caller's context
+						// node is left where it is.
+						if node := q.Select(iteratorFunc(func() NodeNavigator { return node })); node != nil {
 							p.posit++
 							return node
 						}
@@ -818,8 +820,15 @@ func (f *filterQuery) Select(t iterator) NodeNavigator {
 		}
 		node = node.Copy()
 
+		// The predicate is evaluated with the candidate as context node; the
+		// caller's context node is put back afterwards, otherwise whatever is
+		// evaluated next at the same level (the other operand of an operator,
+		// the next function argument) would start from the candidate.
+		cur := t.Current().Copy()
 		t.Current().MoveTo(node)
-		if f.do(t) {
+		ok := f.do(t)
+		t.Current().MoveTo(cur)
+		if ok {
 			// fix https://github.com/antchfx/htmlquery/issues/26
 			// Calculate and keep the each of matching node's position in the same depth.
 			level := getNodeDepth(f.Input)
@@ -1346,11 +1355,15 @@ func (m *mergeQuery) Select(t iterator) NodeNavigator {
 			}
 			m.Child.Evaluate(t)
 			root = root.Copy()
+			// The child step runs with the input node as context node; the
+			// caller's context node is put back afterwards.
+			cur := t.Current().Copy()
 			t.Current().MoveTo(root)
 			var list []NodeNavigator
 			for node := m.Child.Select(t); node != nil; node = m.Child.Select(t) {
 				list = append(list, node.Copy())
 			}
+			t.Current().MoveTo(cur)
 			i := 0
 			m.iterator = func() NodeNavigator {
 				if i >= len(list) {
